@@ -756,6 +756,11 @@ type wgenOpts struct {
 	noPreLet   bool // never test `break if` on a let bound before the counter's increment
 	preLetBoost bool // make that form the usual one (knob programs)
 	ptrLet     bool // `let p = &place;` bindings, read and written through `*p`
+	scalarSel  bool // select() on vectors with a scalar condition, also as the operand of a swizzle / index (C04 finding: MSL)
+	contLet    bool // a `let` of a loop body used in its continuing block (C03/C04/C05 finding: pasted into the continuing text)
+	contLetBoost bool
+	selSwzBoost bool
+	multiSwz   bool // multi-component swizzles as values
 	noArrRead  bool // no `a[i]` value reads of local arrays and no array-typed `let`
 	froundBoost bool // knob programs: round() of run-time half-integers stored to the output
 	fround     bool // round() on half-integers (C04/C05 findings: MSL round is ties-away, GLSL round leaves ties open)
@@ -1148,6 +1153,10 @@ func (g *wgen) builtin(t *wty, depth int) *wexpr {
 		case 9:
 			return call("reverseBits", g.runtime(t, depth-1))
 		case 10:
+			if t.k == "vec" && g.o.scalarSel && g.c.chance(0.5) {
+				g.f("select-scalar-cond")
+				return call("select", g.expr(t, depth-1), g.expr(t, depth-1), g.runtime(tBool, depth-1))
+			}
 			return call("select", g.expr(t, depth-1), g.expr(t, depth-1), g.runtime(t.withScalar(tBool), depth-1))
 		default:
 			if t.isScalar() && !(sc.k == "i32" && g.o.noSDot) {
@@ -1247,6 +1256,22 @@ func (g *wgen) splat(t *wty, v uint32) *wexpr {
 }
 
 func (g *wgen) construct(t *wty, depth int) *wexpr {
+	if g.o.multiSwz && g.c.chance(0.3) {
+		// multi-component swizzle `base.yx` of a vector of any size; the base is sometimes a scalar-condition select
+		m := 2 + g.c.rng.Intn(3)
+		bt := tVec(m, t.elem)
+		base := g.expr(bt, depth-1)
+		if g.o.scalarSel && t.elem.k != "bool" && g.c.chance(0.3) {
+			g.f("swizzle-of-scalar-select")
+			base = &wexpr{k: "call", ty: bt, name: "select", args: []*wexpr{g.expr(bt, depth-1), g.expr(bt, depth-1), g.runtime(tBool, depth-1)}}
+		}
+		name := make([]byte, t.n)
+		for i := range name {
+			name[i] = swzNames[g.c.rng.Intn(m)]
+		}
+		g.f("swizzleN")
+		return &wexpr{k: "swz", ty: t, name: string(name), args: []*wexpr{base}}
+	}
 	r := g.c.rng.Intn(3)
 	switch {
 	case r == 0: // splat
@@ -1278,6 +1303,11 @@ func (g *wgen) component(t *wty, depth int) *wexpr {
 	n := 2 + g.c.rng.Intn(3)
 	vt := tVec(n, t)
 	base := g.expr(vt, depth-1)
+	if g.o.scalarSel && t.k != "bool" && g.c.chance(0.25) {
+		// a component of `select(a, b, cond)` with a scalar condition (MSL writes a bare `c ? b : a` — finding)
+		g.f("component-of-scalar-select")
+		base = &wexpr{k: "call", ty: vt, name: "select", args: []*wexpr{g.expr(vt, depth-1), g.expr(vt, depth-1), g.runtime(tBool, depth-1)}}
+	}
 	if g.c.chance(0.5) {
 		g.f("swizzle1")
 		return &wexpr{k: "swz", ty: t, name: string(swzNames[g.c.rng.Intn(n)]), args: []*wexpr{base}}
@@ -1972,6 +2002,17 @@ func (g *wgen) loopStmt(depth int) *wstmt {
 			g.pop()
 			g.inCont = false
 		}
+		if g.o.contLet && (g.c.chance(0.4) || g.o.contLetBoost) {
+			// a `let` of the loop body used in `continuing`: its value is the one of THIS iteration, whatever the body and
+			// the continuing block store afterwards
+			g.f("body-let-used-in-continuing")
+			bn := g.fresh("ll")
+			a, b := uint32(g.c.rng.Intn(16)), uint32(g.c.rng.Intn(16))
+			body = append([]*wstmt{{k: "let", name: bn, ty: tU32, e: wOut(a)}}, body...)
+			one := &wexpr{k: "lit", ty: tU32, bits: 1, konst: true, small: true}
+			cont = append([]*wstmt{{k: "opassign", op: "+", lhs: wOut(a), e: one},
+				{k: "opassign", op: "^", lhs: wOut(b), e: &wexpr{k: "var", ty: tU32, name: bn}}}, cont...)
+		}
 		g.inSwitch = saved
 		g.inLoop--
 		g.pop()
@@ -2194,6 +2235,24 @@ func genModule(c *ctx, o wgenOpts) (*wmodule, map[string]int) {
 		}
 		g.m.entry.body = append(pre, g.m.entry.body...)
 	}
+	if o.selSwzBoost {
+		// knob programs: a component of a scalar-condition select reaches the output
+		n := 1 + c.rng.Intn(2)
+		pre := []*wstmt{}
+		for i := 0; i < n; i++ {
+			vt := tVec(2+c.rng.Intn(3), tU32)
+			sel := &wexpr{k: "call", ty: vt, name: "select", args: []*wexpr{g.load(vt), g.load(vt), g.load(tBool)}}
+			two := &wexpr{k: "swz", ty: tVec(2, tU32), name: string([]byte{swzNames[c.rng.Intn(vt.n)], swzNames[c.rng.Intn(vt.n)]}), args: []*wexpr{sel}}
+			comp := &wexpr{k: "swz", ty: tU32, name: string(swzNames[c.rng.Intn(2)]), args: []*wexpr{two}}
+			g.f("component-of-scalar-select")
+			pre = append(pre, &wstmt{k: "opassign", op: "^", lhs: wOut(uint32(c.rng.Intn(16))), e: comp})
+		}
+		g.m.entry.body = append(pre, g.m.entry.body...)
+	}
+	if o.contLetBoost {
+		addContLetLoop(c, g.m)
+		g.f("body-let-used-in-continuing")
+	}
 	if o.preLetBoost {
 		addPreLetLoop(c, g.m)
 		g.f("break-if-on-let-observable")
@@ -2220,7 +2279,7 @@ func defaultGenOpts(c *ctx) wgenOpts {
 	if c.chance(0.25) {
 		wLitSalt = c.rng.Uint32() | 1
 	}
-	return wgenOpts{shadowUse: c.chance(0.1), swBreak: c.chance(0.3), absU: c.chance(0.1), negInit: c.chance(0.1), vecInit: c.chance(0.1), rawShift: c.chance(0.1), clz: c.chance(0.1), privInit: c.chance(0.3), contCall: c.chance(0.1), ptrLet: c.chance(0.35), maxStmts: 6 + c.rng.Intn(14), maxDepth: 1 + c.rng.Intn(3), floats: c.chance(0.5), helpers: c.rng.Intn(4), structs: c.chance(0.5)}
+	return wgenOpts{shadowUse: c.chance(0.1), swBreak: c.chance(0.3), absU: c.chance(0.1), negInit: c.chance(0.1), vecInit: c.chance(0.1), rawShift: c.chance(0.1), clz: c.chance(0.1), privInit: c.chance(0.3), contCall: c.chance(0.1), ptrLet: c.chance(0.35), maxStmts: 6 + c.rng.Intn(14), maxDepth: 1 + c.rng.Intn(3), floats: c.chance(0.5), helpers: c.rng.Intn(4), structs: c.chance(0.5), contLet: c.chance(0.5), scalarSel: true, multiSwz: true}
 }
 
 
@@ -2348,6 +2407,29 @@ func addPreLetLoop(c *ctx, m *wmodule) {
 }
 
 
+// addContLetLoop appends to main `{ var icl = 0u; loop { let lcl = outp[a]; continuing { outp[a] += 1u; outp[b] ^= lcl; icl++;
+// break if icl >= N; } } }`: the value of `lcl` is the one read in the body of the same iteration.
+func addContLetLoop(c *ctx, m *wmodule) {
+	lit := func(v uint32) *wexpr { return &wexpr{k: "lit", ty: tU32, bits: v, konst: true, small: v <= 8} }
+	a, b := uint32(c.rng.Intn(16)), uint32(c.rng.Intn(16))
+	iv := &wexpr{k: "var", ty: tU32, name: "icl"}
+	loop := &wstmt{k: "loop",
+		body: []*wstmt{{k: "let", name: "lcl", ty: tU32, e: wOut(a)}},
+		els: []*wstmt{{k: "opassign", op: "+", lhs: wOut(a), e: lit(1)},
+			{k: "opassign", op: "^", lhs: wOut(b), e: &wexpr{k: "var", ty: tU32, name: "lcl"}},
+			{k: "incr", lhs: iv}},
+		brk: &wexpr{k: "bin", ty: tBool, op: ">=", args: []*wexpr{iv, lit(uint32(2 + c.rng.Intn(3)))}}}
+	blk := &wstmt{k: "block", body: []*wstmt{{k: "var", name: "icl", ty: tU32, e: lit(0)}, loop}}
+	body := m.entry.body
+	n := len(body)
+	if n > 0 && body[n-1].k == "return" {
+		body = append(append(append([]*wstmt{}, body[:n-1]...), blk), body[n-1])
+	} else {
+		body = append(body, blk)
+	}
+	m.entry.body = body
+}
+
 // hasNestedReturn: does some helper function contain a `return` inside a loop or a switch (at any depth)?  The decidable
 // shape of the recorded inliner defect C13-inline-nested-return.
 func hasNestedReturn(m *wmodule) bool {
@@ -2440,4 +2522,70 @@ func hasMultiSpill(m *wmodule) bool {
 		}
 	}
 	return m.entry != nil && check(m.entry)
+}
+
+// walkModuleExprs calls f on every expression node of the module's functions.
+func walkModuleExprs(m *wmodule, f func(e *wexpr)) {
+	var we func(e *wexpr)
+	we = func(e *wexpr) {
+		if e == nil {
+			return
+		}
+		f(e)
+		for _, a := range e.args {
+			we(a)
+		}
+	}
+	var ws func(l []*wstmt)
+	var wst func(st *wstmt)
+	wst = func(st *wstmt) {
+		if st == nil {
+			return
+		}
+		we(st.e)
+		we(st.lhs)
+		we(st.brk)
+		wst(st.init)
+		wst(st.upd)
+		ws(st.body)
+		ws(st.els)
+		for _, cs := range st.cases {
+			ws(cs.body)
+		}
+	}
+	ws = func(l []*wstmt) {
+		for _, st := range l {
+			wst(st)
+		}
+	}
+	for _, fn := range m.funcs {
+		ws(fn.body)
+	}
+	if m.entry != nil {
+		ws(m.entry.body)
+	}
+}
+
+// hasSwzOfCompound: is there a multi-component swizzle, or a run-time index, applied directly to a binary / comparison
+// expression or to a select() with a scalar condition?  The decidable shape of the recorded MSL defect
+// C04-msl-swizzle-base-unparenthesised.
+func hasSwzOfCompound(m *wmodule) bool {
+	found := false
+	walkModuleExprs(m, func(e *wexpr) {
+		if len(e.args) == 0 {
+			return
+		}
+		b := e.args[0]
+		compound := b.k == "bin" || (b.k == "call" && b.name == "select" && len(b.args) == 3 && b.args[2].ty != nil && b.args[2].ty.k == "bool")
+		if !compound {
+			return
+		}
+		if e.k == "swz" && len(e.name) > 1 {
+			found = true
+		}
+		if e.k == "idx" && len(e.args) == 2 && e.args[1].k != "lit" {
+			found = true
+		}
+	})
+	return found
 }
